@@ -96,6 +96,8 @@ func NewL2(opt L2Options) *L2 {
 	}
 	chainID := "l2-verif"
 	ctx := sdk.NewContext(ms, tmproto.Header{Height: h, Time: L2GenesisTime, ChainID: chainID}, false, log.NewNopLogger())
+	// the consensus parameters a CometBFT chain starts with: ed25519 validator keys only
+	ctx = ctx.WithConsensusParams(tmproto.ConsensusParams{Validator: &tmproto.ValidatorParams{PubKeyTypes: []string{"ed25519"}}})
 
 	enc := MakeEncodingConfig(L2Basics)
 	maccPerms := map[string][]string{
